@@ -34,7 +34,7 @@ CHECKS = {
                 "prefixes, and under Always/Periodic several PRNG power-loss states per boundary; a third of the states get a second crash inside "
                 "the start-up that follows. evaluations = crash states on which the real strict recovery ran. distinct_nontrivial = crash states "
                 "with >=1 acknowledged operation before the crash whose directory digest (file ids rank-normalised) x acknowledged-op count is new "
-                "(counted per worker and summed).",
+                "(counted per worker and summed). Crash points inside the very first creation of the database (no MANIFEST yet; refused by the engine-level recovery by design) are also judged through the server's start-up decision (main()'s lines cut out at build time), which must start an empty database.",
         "assumptions": [
             "pessimistic power-loss model: un-fsynced writes of a file are kept as a prefix (last one possibly torn), un-fsynced directory operations as a prefix; file fsync does not persist the directory entry",
             "the data directory itself is created by the operator and is durable",
@@ -133,7 +133,7 @@ CHECKS = {
                 "get_embedding_cache_aware, exists} on 1-2 shared ids after a 0-3 operation warm-up, against one TieredEngine (cache capacity 1-8, hot hard limit 1-200 so drains interleave, "
                 "all cache strategies, with and without persistence); 16 seeded schedules per program (random walk, sticky walk, PCT d<=3, bounded preemption); half of the programs end "
                 "with a forced drain, all end with quiescent reads of every id through every flavour. evaluations = histories checked. distinct_nontrivial = distinct decision-trace "
-                "hashes among histories in which operations of different threads overlapped in time.",
+                "hashes among histories in which operations of different threads overlapped in time. A third of the programs run on a tiny index (capacity 2-4) filled by the sequential prefix; half of those are cold-direct (clients call HnswBackend themselves, no persistence, so no tier gate or snapshot lock separates one client's tombstone compaction from another's delete); dimensions {2,3,4,5,9}; in a quarter of the programs all versions differ in the last lane only.",
         "assumptions": [
             "invoke/return stamps are the scheduler's global step, taken so that recorded intervals contain the real ones (never tighter)",
             "a write that returned an error may or may not have taken effect; delete's boolean result is not judged (the property speaks about reads)",
